@@ -63,6 +63,14 @@ class StreamingDetector(ABC):
             if self._input_cols is None:
                 input_cols = X.columns
                 input_col_dim = len(input_cols)
+                # arrays may already have established the dimension
+                if (
+                    self._input_col_dim is not None
+                    and input_col_dim != self._input_col_dim
+                ):
+                    raise ValueError(
+                        "Column-dimension of new data must match prior data."
+                    )
             elif self._input_cols is not None:
                 if not X.columns.equals(self._input_cols):
                     raise ValueError(
